@@ -45,8 +45,11 @@ class PythonText:
 fn_names_that_imply_windowed_situation = {
     "all",
     "any",
+    "any_value",
     "bfill",
     "count",
+    "_count",
+    "_size",
     "cumcount",
     "cummax",
     "cummin",
